@@ -115,7 +115,7 @@ impl ty::TyStorageField {
     ) -> Result<(u64, Vec<StorageSlot>), CompileError> {
         let key =
             Self::get_key_expression_const(&self.key_expression, engines, context, md_mgr, module)?;
-        compile_constant_expression_to_constant(
+        let constant = compile_constant_expression_to_constant(
             engines,
             context,
             md_mgr,
@@ -123,8 +123,35 @@ impl ty::TyStorageField {
             None,
             None,
             &self.initializer,
-        )
-        .map(|constant| serialize_to_storage_slots(context, &constant, &self.path(), key))
+        )?;
+
+        // A field larger than 32 bytes occupies the consecutive slots `key`, `key + 1`, ...
+        // If the user-provided `in` key is so close to the end of the key space that the
+        // key of the last slot would exceed 2^256 - 1, there is no valid placement for the
+        // field (the VM also refuses such slot ranges), so we reject the declaration.
+        if let Some(key) = &key {
+            let slots = constant
+                .get_content(context)
+                .ty
+                .size(context)
+                .in_bytes()
+                .div_ceil(32);
+            if slots > 1 && key.checked_add(&U256::from(slots - 1)).is_none() {
+                return Err(CompileError::StorageFieldExceedsKeySpace {
+                    field_name: self.full_name(),
+                    slots,
+                    key: format!("0x{key:x}"),
+                    span: self.span(),
+                });
+            }
+        }
+
+        Ok(serialize_to_storage_slots(
+            context,
+            &constant,
+            &self.path(),
+            key,
+        ))
     }
 
     pub(crate) fn get_key_expression_const(
